@@ -62,6 +62,13 @@ class LibEnv:
         p = self.sds.act_dir / name
         with open(p, 'w', encoding='utf-8', newline='') as f:
             f.write(text)
+        # every file the harness writes gets the SAME modification time: two files of equal size then look alike to a comparison that trusts
+        # the stat signature instead of reading them
+        os.utime(str(p), (1000000000, 1000000000))
+        # ... and because the harness REUSES file names with those equal times, what the standard library has cached about the previous
+        # contents of a name (filecmp keeps results per path + stat signature) must be dropped: every execution stands for a separate run
+        import filecmp
+        filecmp.clear_cache()
         return p
 
     # ---- parse + resolve -------------------------------------------------------------
